@@ -1,5 +1,6 @@
 import Cose.Msg.Roundtrip
 import Cose.Props.C05
+import Cose.Go.Roundtrip
 /-!
 # C01 — every COSE message the library produces is accepted back with identical content
 
@@ -115,13 +116,14 @@ theorem auth4_roundtrip (k : Kind) (hk : k = .sign1 ∨ k = .mac0) (payload ext 
     (hcorr : SigCorrect auth check) (hvk : vkey.alg = key.alg) (ha : key.alg ≠ 0)
     (har : -2147483648 ≤ key.alg ∧ key.alg ≤ 2147483647)
     (m1 : Msg) (h : produceAuth ⟨k, none, unprot, .bytes payload, none⟩ key auth ext = .ok m1)
-    (w : Wire) (hw : m1.mm = some w) (u : Cbor) (hu : hdrCbor w.unprot = some u) (huw : WF u)
-    (hud : depth u + 2 < maxNesting) (uh : Hdr) (huf : hdrField u = .ok uh)
+    (w : Wire) (hw : m1.mm = some w) (u : Cbor) (hu : hdrCbor w.unprot = some u)
+    (u' : Cbor) (heq : encode u' = encode u) (huw : WF u')
+    (hud : depth u' + 2 < maxNesting) (uh : Hdr) (huf : hdrField u' = .ok uh)
     (hpl : ∀ x, payload = some x → x.length < two64) (hsl : ∀ x, w.auth = some x → x.length < two64) :
     ∃ bytes m2 w2, marshal k w = some bytes ∧ unmarshal k .raw bytes = .ok m2 ∧ m2.mm = some w2 ∧
       w2.prot = w.prot ∧ w2.payload = payload ∧ w2.auth = w.auth ∧
       m2.payload = .bytes (nonEmpty payload) ∧
-      verifyAuth m2 vkey check ext = .ok () := by
+      verifyAuth m2 vkey check ext = .ok () ∧ m2.unprot = uh := by
   -- unfold production
   unfold produceAuth at h
   have hfp : fillProtected none key = .ok [(Msg.lbl Iana.HeaderParameterAlg, .int .alg key.alg)] :=
@@ -160,10 +162,14 @@ theorem auth4_roundtrip (k : Kind) (hk : k = .sign1 ∨ k = .mac0) (payload ext 
         apply this
         unfold Cbor.ofInt
         split <;> (simp only [encode]; rw [head_shortest]; split <;> (try split) <;> (try split) <;> (try split) <;> omega)
-      have hwfarr : WF (.arr [.bstr pb, u, bytesCbor payload, .bstr sig]) := by
+      -- the unprotected bucket is emitted in canonical order: `u'` is the item a decoder sees
+      have henc4 : encode (.tag k.tagNum (.arr [.bstr pb, u, bytesCbor payload, .bstr sig])) =
+          encode (.tag k.tagNum (.arr [.bstr pb, u', bytesCbor payload, .bstr sig])) := by
+        simp only [encode, encodeList, heq, List.length_cons, List.length_nil]
+      have hwfarr : WF (.arr [.bstr pb, u', bytesCbor payload, .bstr sig]) := by
         simp only [WF, WFList, maxElems, List.length_cons, List.length_nil]
         exact ⟨by omega, hpbl, huw, wf_bytesCbor payload hpl, hsl sig rfl, trivial⟩
-      have hdarr : depth (.arr [.bstr pb, u, bytesCbor payload, .bstr sig]) < maxNesting := by
+      have hdarr : depth (.arr [.bstr pb, u', bytesCbor payload, .bstr sig]) < maxNesting := by
         simp only [depth, depthList, depth_bytesCbor]; omega
       obtain ⟨c, hc1, hc2⟩ := decode_marshalled k _ hwfarr hdarr
       refine ⟨encode (.tag k.tagNum (.arr [.bstr pb, u, bytesCbor payload, .bstr sig])), ?_⟩
@@ -172,11 +178,11 @@ theorem auth4_roundtrip (k : Kind) (hk : k = .sign1 ∨ k = .mac0) (payload ext 
         unfold marshal; rw [hwc]; rfl
       obtain ⟨pm, hpm, hmm⟩ := default_bucket_roundtrip key.alg har
       rw [hpb] at hpm
-      have hrr : recipientsRawOk k (applyStrip (encode (.tag k.tagNum (.arr [.bstr pb, u, bytesCbor payload, .bstr sig]))) (stripSteps k)) = true := by
+      have hrr : recipientsRawOk k (applyStrip (encode (.tag k.tagNum (.arr [.bstr pb, u', bytesCbor payload, .bstr sig]))) (stripSteps k)) = true := by
         rcases hk with rfl | rfl <;> simp [recipientsRawOk]
       have hwire : wireOfCbor k c = .ok { prot := some pb, unprot := uh, payload := payload, auth := some sig } := by
         rw [wireOfCbor_untag, hc2]
-        show wireOfCbor k (.arr [bytesCbor (some pb), u, bytesCbor payload, bytesCbor (some sig)]) = _
+        show wireOfCbor k (.arr [bytesCbor (some pb), u', bytesCbor payload, bytesCbor (some sig)]) = _
         rw [wire4_fields k hk, huf]
       have hnot : ((k == Kind.mac || k == Kind.encrypt) && ([] : List Recip).isEmpty) = false := by
         rcases hk with rfl | rfl <;> rfl
@@ -187,9 +193,9 @@ theorem auth4_roundtrip (k : Kind) (hk : k = .sign1 ∨ k = .mac0) (payload ext 
         | none => rfl
         | some l => cases l <;> rfl
       refine ⟨⟨k, some pm, uh, .bytes (nonEmpty payload),
-        some { prot := some pb, unprot := uh, payload := payload, auth := some sig }⟩, _, hmar, ?_, rfl, rfl, rfl, rfl, rfl, ?_⟩
+        some { prot := some pb, unprot := uh, payload := payload, auth := some sig }⟩, _, hmar, ?_, rfl, rfl, rfl, rfl, rfl, ?_, rfl⟩
       · unfold unmarshal
-        rw [hc1]
+        rw [henc4, hc1]
         simp only [hrr, hwire, Bool.not_true, Bool.false_eq_true, if_false, Option.getD_none, hnot, hpm, hnot2, hpay]
       · unfold verifyAuth
         simp only [Option.getD_some, hvk, hmm, Bool.false_eq_true, if_false]
@@ -197,5 +203,67 @@ theorem auth4_roundtrip (k : Kind) (hk : k = .sign1 ∨ k = .mac0) (payload ext 
           rw [← htb]; unfold tobe; rfl
         rw [htb2]
         exact hcorr tb sig hsig
+
+/-- the wire struct kept by `WithSign` / `Compute` carries the filled unprotected map -/
+theorem produceAuth_wire_unprot (m : Msg) (key : KeyView) (auth : Bytes → Res Bytes) (ext : Option Bytes) (m1 : Msg)
+    (h : produceAuth m key auth ext = .ok m1) (w : Wire) (hw : m1.mm = some w) :
+    w.unprot = some (fillUnprotected m.unprot key) := by
+  unfold produceAuth at h
+  split at h
+  · cases h
+  · cases h
+  · split at h
+    · simp only at h
+      split at h
+      · split at h
+        · cases h; cases hw; rfl
+        · cases h
+        · cases h
+      · cases h
+      · cases h
+    · cases h
+    · cases h
+    · cases h
+    · cases h
+
+/-- **COSE_Sign1 / COSE_Mac0 round trip, any unprotected header map**: for every payload, external data, key and
+    every unprotected map (after the library added the kid) with distinct in-range labels and scalar / list values —
+    *in whatever order a Go map presents its entries* — the produced message is decoded back with byte-identical
+    protected bucket, payload and signature / tag, verifies, and its unprotected map answers every look-up with the
+    decoded form of the original value. -/
+theorem auth4_roundtrip_any_order (k : Kind) (hk : k = .sign1 ∨ k = .mac0) (payload ext : Option Bytes) (unprot : Hdr)
+    (key vkey : KeyView) (auth : Bytes → Res Bytes) (check : Bytes → Bytes → Res Unit)
+    (hcorr : SigCorrect auth check) (hvk : vkey.alg = key.alg) (ha : key.alg ≠ 0)
+    (har : -2147483648 ≤ key.alg ∧ key.alg ≤ 2147483647)
+    (m1 : Msg) (h : produceAuth ⟨k, none, unprot, .bytes payload, none⟩ key auth ext = .ok m1)
+    (w : Wire) (hw : m1.mm = some w)
+    (hok : ∀ kv ∈ fillUnprotected unprot key, EntryOk kv)
+    (hnd : ((fillUnprotected unprot key).map (·.1)).Nodup)
+    (hlen : (fillUnprotected unprot key).length ≤ maxElems)
+    (hpl : ∀ x, payload = some x → x.length < two64) (hsl : ∀ x, w.auth = some x → x.length < two64) :
+    ∃ bytes m2 w2 uh, marshal k w = some bytes ∧ unmarshal k .raw bytes = .ok m2 ∧ m2.mm = some w2 ∧
+      w2.prot = w.prot ∧ w2.payload = payload ∧ w2.auth = w.auth ∧
+      m2.payload = .bytes (nonEmpty payload) ∧
+      verifyAuth m2 vkey check ext = .ok () ∧ m2.unprot = some uh ∧
+      ∀ l, uh.lookup l = ((fillUnprotected unprot key).lookup l).map normV := by
+  let fm := fillUnprotected unprot key
+  have hwu : w.unprot = some fm := produceAuth_wire_unprot _ key auth ext m1 h w hw
+  have hp := sortM_perm fm
+  have hok' : ∀ kv ∈ sortM fm, EntryOk kv := fun kv hh => hok kv (hp.subset hh)
+  obtain ⟨hwf, hdepth⟩ := sorted_entries_wf fm hok hnd hlen
+  obtain ⟨_, _, _, hof, hcm⟩ := entries_wf (sortM fm) hok'
+  have hnd_enc : ((encodePairs (fm.map entryCbor)).map (·.1)).Nodup := by
+    rw [map_entryCbor_keys]; exact encoded_labels_nodup fm (fun kv hh => (hok kv hh).1) hnd
+  have henc : encode (.map ((sortM fm).map entryCbor)) = encode (.map (fm.map entryCbor)) :=
+    (encode_map_perm (hp.symm.map entryCbor) hnd_enc).symm
+  have hu : hdrCbor w.unprot = some (.map (fm.map entryCbor)) := by
+    rw [hwu]; simp only [hdrCbor, CMap.toCbor, cmapPairs_eq fm hok, Option.map_some]
+  have huf : hdrField (.map ((sortM fm).map entryCbor)) = .ok (some ((sortM fm).map entryNorm)) := by
+    simp only [hdrField, untag, hof, hcm]
+  obtain ⟨bytes, m2, w2, h1, h2, h3, h4, h5, h6, h7, h8, h9⟩ :=
+    auth4_roundtrip k hk payload ext unprot key vkey auth check hcorr hvk ha har m1 h w hw _ hu _ henc hwf
+      (by unfold maxNesting; omega) _ huf hpl hsl
+  refine ⟨bytes, m2, w2, (sortM fm).map entryNorm, h1, h2, h3, h4, h5, h6, h7, h8, h9, fun l => ?_⟩
+  rw [lookup_entryNorm, lookup_perm hp hnd]
 
 end Cose.Props.C01
